@@ -67,7 +67,9 @@ extern Boolean AddStructElem(PStructRec pStructRec, PStructElem pElement);
 extern void SetStructElemSize(
         PStructRec pStructRec, char const* pElemName, tSymbolSize Size);
 
-extern void AddStructSymbol(char const* pName, LargeWord Value);
+extern LargeWord StructSymbolValue(LargeWord Value);
+
+extern struct sSymbolEntry* AddStructSymbol(char const* pName, LargeWord Value);
 
 extern void ResolveStructReferences(PStructRec pStructRec);
 
